@@ -24,7 +24,7 @@ Entry ==
       [] last' = "Return" /\ frames' = << >> -> <<[k |-> "ret", p |-> Proj]>>
       [] last' = "Reset" -> <<[k |-> "reset"], [k |-> "ret", p |-> Proj]>>
       [] OTHER -> << >>
-SimInit == Init /\ log = <<[k |-> "init", t0 |-> t0, tf |-> tf, dt0 |-> dt0, roots |-> ROOTS]>>      \* the event functions are built from this table
+SimInit == Init /\ log = <<[k |-> "init", t0 |-> t0, tf |-> tf, dt0 |-> dt0, roots |-> ROOTS, dense |-> DENSE]>>      \* the event functions are built from this table
 (* one tick of the replay is a quarter of a time unit: the step never underflows there *)
 SimNext == Next /\ last' # "Underflow" /\ log' = log \o Entry
 (* roots of one event function are 4 ticks apart: a step that grew beyond 2 ticks could hide two crossings of one function *)
